@@ -1217,3 +1217,26 @@ def fixed_cases():
         ("match-never-second-ok", 'fn f(a: int) -> int { match a { 0 => 1, 1 => throw("z"), _ => 30 } }\nfn main() { println(f(1)); }\n', False,
          "diverging arm in second position"),
     ]
+
+
+def operator_matrix_cases():
+    """Every (operand type, operand type, infix / compound-assignment operator) as a one-line program; no expectation of the
+    generator: the model (proved equivalent to the typing relation) says which are admitted, the analyzer must agree."""
+    lits = {"int": "2", "float": "2.5", "bool": "true", "str": '"s"', "list": "[1]", "range": "(1..3)", "opt": "(?1)",
+            "obj": "new { a: 1 }", "null": "null", "fn": "main"}
+    infix = ["+", "-", "*", "/", "%", "**", "<<", ">>", "|", "&", "^", "||", "&&", "==", "!=", "<", "<=", ">", ">="]
+    assign = ["+=", "-=", "*=", "/=", "%=", "**=", "<<=", ">>=", "|=", "&=", "^="]
+    out = []
+    for ta, a in lits.items():
+        for tb, b in lits.items():
+            if ta != tb and {ta, tb} - {"int", "float", "bool", "str"}:
+                continue        # mixed pairs beyond the scalars: covered by the operand-mismatch mutants
+            for op in infix:
+                out.append(f"fn main() {{ let v = ({a} {op} {b}); }}\n")
+            if ta not in ("null", "fn"):
+                for op in assign:
+                    out.append(f"fn main() {{ let w = {a}; w {op} {b}; }}\n")
+    for t, a in lits.items():
+        for pre in ["-", "!", "?"]:
+            out.append(f"fn main() {{ let v = ({pre}{a}); }}\n")
+    return out
